@@ -43,6 +43,9 @@ def run_one(patch, tier, seed, plans):
                 if "session" in c:
                     minim.append({"class": d["class"], "session": [{"selection": {k: inv["selection"].get(k) for k in ("units", "constants", "io")}, "faults": inv.get("faults"), "touched": inv["env"].get("touched")} for inv in c["session"]], "minimisation_evals": d["minimisation"]["evaluations"]})
                     continue
+                if "concurrent" in c:
+                    minim.append({"class": d["class"], "concurrent": [{k: inv["selection"].get(k) for k in ("units", "constants", "io")} for inv in c["concurrent"]], "preempt_permille": c["preempt_permille"], "minimisation_evals": d["minimisation"]["evaluations"]})
+                    continue
                 if "header_alone" in c:
                     minim.append({"class": d["class"], "header": c["header_alone"], "toolchain": c["toolchain"]})
                     continue
